@@ -96,6 +96,11 @@ class FakeSocket:
         return bool(self.inbuf) or self.eof
 
     def send(self, bytestream: bytes) -> None:
+        # mirrors transport.AssociationSocket.send: a failed send queues Evt17
+        if self.socket is None or self.os_closed:
+            if self.assoc is not None:
+                self.assoc.dul.event_queue.put("Evt17")
+            return
         self.sent.append(bytes(bytestream))
 
     def recv(self, nr_bytes: int) -> bytearray:
